@@ -263,6 +263,11 @@ func (r *rec) rootWithPrefixKind(corpus []string, kind int) (string, []move.Move
 		default:
 			fen = gen.RandomValid(r.rng, gen.Profile{MinPieces: 2, MaxPieces: 24, PawnBias: 45, NearKings: r.rng.Intn(2) == 0})
 		}
+		if f := strings.Fields(fen); len(f) == 6 && f[3] == "-" && r.rng.Intn(8) == 0 {
+			// the fifty-move boundary inside the search tree: the clock reaches 100 one to six plies below the root
+			f[4] = strconv.Itoa(94 + r.rng.Intn(6))
+			fen = strings.Join(f, " ")
+		}
 		b, err := board.FromFEN(fen)
 		if err != nil || b.InvalidPieceCount() {
 			continue
@@ -835,6 +840,98 @@ func (r *rec) ucigo(corpus []string) {
 	}
 }
 
+// ucirepro: the same request through two real drivers - a fresh one, and one that has been through something
+// else before `ucinewgame` (a clock-limited search, a ponder search that was stopped, a table that was shrunk,
+// cleared and grown again). After ucinewgame (and the same Hash size) the answer to a depth- or node-limited
+// `go` must not depend on what came before, nor on how long anything takes.
+func (r *rec) ucirepro(corpus []string) {
+	session := func(cmds []string) ([]string, string) {
+		pr, pw := io.Pipe()
+		var out safeBuf
+		d := uci.NewDriver(uci.WithInput(pr), uci.WithOutput(&out), uci.WithError(io.Discard), uci.WithSearch(search.New(1<<20)))
+		done := make(chan struct{})
+		go func() { d.Run(); close(done) }()
+		nbest := 0
+		mark := 0
+		for _, c := range cmds {
+			if c == "@mark" {
+				mark = len(out.String())
+				continue
+			}
+			io.WriteString(pw, c+"\n")
+			if strings.HasPrefix(c, "go") && !strings.HasPrefix(c, "go ponder") {
+				nbest++
+				out.waitCount("bestmove", nbest)
+			}
+			if c == "stop" {
+				nbest++
+				out.waitCount("bestmove", nbest)
+			}
+		}
+		io.WriteString(pw, "quit\n")
+		pw.Close()
+		<-done
+		var lines []string
+		best := ""
+		for _, l := range strings.Split(out.String()[mark:], "\n") {
+			if strings.HasPrefix(l, "info ") && strings.Contains(l, " score ") {
+				lines = append(lines, stripTime(l))
+			}
+			if strings.HasPrefix(l, "bestmove") {
+				best = l
+			}
+		}
+		return lines, best
+	}
+	for !r.full() {
+		fen, _, _ := r.rootWithPrefixKind(corpus, 0)
+		if b, err := board.FromFEN(fen); err != nil || b.InvalidPieceCount() {
+			continue
+		}
+		hash := []int{1, 4, 8}[r.rng.Intn(3)]
+		req := fmt.Sprintf("go depth %d", 7+r.rng.Intn(4))
+		if r.rng.Intn(3) == 0 {
+			req = fmt.Sprintf("go nodes %d", 20000+r.rng.Intn(60000))
+		}
+		tail := []string{"position fen " + fen, "@mark", req}
+		ref := append([]string{fmt.Sprintf("setoption name Hash value %d", hash), "ucinewgame"}, tail...)
+		var pre []string
+		kind := r.rng.Intn(4)
+		switch kind {
+		case 0:
+			pre = []string{fmt.Sprintf("setoption name Hash value %d", hash), "position startpos moves e2e4", fmt.Sprintf("go wtime %d btime %d", 30+r.rng.Intn(60), 30+r.rng.Intn(60)), "ucinewgame"}
+		case 1:
+			pre = []string{fmt.Sprintf("setoption name Hash value %d", hash), "position fen " + fen, "go movetime 15", "ucinewgame"}
+		case 2:
+			pre = []string{"setoption name Ponder value true", fmt.Sprintf("setoption name Hash value %d", hash), "position startpos", "go ponder wtime 200 btime 200", "stop", "ucinewgame"}
+		default:
+			pre = []string{"setoption name Hash value 16", "position fen " + fen, "go nodes 4000", "setoption name Hash value 1", "ucinewgame", fmt.Sprintf("setoption name Hash value %d", hash)}
+		}
+		if kind == 2 {
+			// the Ponder option changes what `bestmove` prints: same option on both sides
+			ref = append([]string{"setoption name Ponder value true"}, ref...)
+		}
+		hist := append(append([]string{}, pre...), tail...)
+		r.t++
+		l1, b1 := session(ref)
+		l2, b2 := session(hist)
+		r.emit(&Ev{Ev: "usession", Role: "ref", Lines: &l1, Best: b1, Fen: fen})
+		r.emit(&Ev{Ev: "usession", Role: "hist", Lines: &l2, Best: b2, Fen: fen})
+		pl := strings.Join(pre, " | ")
+		r.emit(&Ev{Ev: "uend", Fen: fen, Args: req, Msg: pl})
+	}
+}
+
+func (s *safeBuf) waitCount(sub string, n int) {
+	for i := 0; i < 120000; i++ {
+		if strings.Count(s.String(), sub) >= n {
+			return
+		}
+		sleepMs(1)
+	}
+	panic("uci driver did not answer " + sub)
+}
+
 type safeBuf struct {
 	mu  sync.Mutex
 	buf bytes.Buffer
@@ -889,6 +986,8 @@ func main() {
 	}()
 	corpus := gen.LoadCorpus(*corpusPath)
 	switch *mode {
+	case "ucirepro":
+		r.ucirepro(corpus)
 	case "collide":
 		r.collide(corpus)
 	case "limits":
